@@ -421,6 +421,9 @@ func init() {
 	register("quick", &h.Scenario{Name: "C14-L3-retain2", Prop: "C14", P: 1, F: 0, D: 1, Run: c14Run(a0), Check: c14Oracle(a0)})
 	a := c14Params{L: 4, retain: 2, pause: 5, losts: []int{1, 2, 65535}}
 	register("thorough", &h.Scenario{Name: "C14-L4-retain2", Prop: "C14", P: 1, F: 0, D: 1, Run: c14Run(a), Check: c14Oracle(a)})
+	// a negative pause is a legal configuration value and means "no pause", like 0
+	np := c14Params{L: 3, retain: 2, pause: -5, losts: []int{1, 3}, noInject: true}
+	register("both", &h.Scenario{Name: "C14-L3-retain2-negative-pause", Prop: "C14", P: 0, F: 0, D: -1, Run: c14Run(np), Check: c14Oracle(np)})
 	b := c14Params{L: 4, retain: 1, pause: 0, losts: []int{0, 1, 3}, noClose: true, noInject: true}
 	register("both", &h.Scenario{Name: "C14-L4-retain1-pause0", Prop: "C14", P: 0, F: 0, D: -1, Run: c14Run(b), Check: c14Oracle(b)})
 	c := c14Params{L: 5, retain: 3, pause: 5, losts: []int{2, 3}, noClose: true, noInject: true}
